@@ -265,7 +265,7 @@ pub fn rich_string(max: usize) -> BoxedStrategy<String> {
                 s
             }),
         // strings that look like JSON structure
-        2 => prop::sample::select(vec!["],[", "\"],[\"", "]", "[", ",", "\",\"", "}", "{\"id\":", "]]", "\\", "\\\"", ":", "[[\"a\"]]", "\\u0041"]).prop_map(|s| s.to_string()),
+        2 => prop::sample::select(vec!["],[", "\"],[\"", "]", "[", ",", "\",\"", "}", "{\"id\":", "]]", "\\", "\\\"", ":", "[[\"a\"]]", "\\u0041", "\\u000b", "x\\u00e9", "\\n", "\\/", "\\u12", "\\\\u0041", "\\U0041"]).prop_map(|s| s.to_string()),
     ]
     .boxed()
 }
